@@ -99,6 +99,12 @@ module Coq_Pos :
   val compare : positive -> positive -> comparison
 
   val eqb : positive -> positive -> bool
+
+  val iter_op : ('a1 -> 'a1 -> 'a1) -> positive -> 'a1 -> 'a1
+
+  val to_nat : positive -> int
+
+  val of_succ_nat : int -> positive
  end
 
 module N :
@@ -123,6 +129,8 @@ val map : ('a1 -> 'a2) -> 'a1 list -> 'a2 list
 val flat_map : ('a1 -> 'a2 list) -> 'a1 list -> 'a2 list
 
 val fold_left : ('a1 -> 'a2 -> 'a1) -> 'a2 list -> 'a1 -> 'a1
+
+val combine : 'a1 list -> 'a2 list -> ('a1 * 'a2) list
 
 val seq : int -> int -> int list
 
@@ -162,6 +170,10 @@ module Z :
 
   val abs : z -> z
 
+  val to_nat : z -> int
+
+  val of_nat : int -> z
+
   val of_N : n -> z
 
   val pos_div_eucl : positive -> z -> z * z
@@ -173,6 +185,8 @@ module Z :
   val quotrem : z -> z -> z * z
 
   val quot : z -> z -> z
+
+  val rem : z -> z -> z
  end
 
 type scalar = { s0 : __; s1 : __; sadd : (__ -> __ -> __);
@@ -422,6 +436,28 @@ val laplace : int -> (int -> int -> z) -> z
 
 val det_spec : int -> (int -> z) -> z
 
+val prod0 : int list -> int
+
+val unflat : int list -> int -> int list
+
+type urange = { uf : z; ul : z; us : z }
+
+val norm1d : z -> urange -> urange
+
+val normnd : z -> urange -> urange
+
+val rsize : urange -> z
+
+type nrange = { nfirst : int; nstep : int; nsize : int }
+
+val to_nrange : urange -> nrange
+
+val vdims : nrange list -> int list
+
+val voffset : int list -> nrange list -> int list -> int
+
+val view_off : int list -> nrange list -> int -> int
+
 val run_matmul_Z :
   cfg -> ety -> int -> int -> int -> z list -> z list -> z list
 
@@ -446,3 +482,7 @@ val run_reduce_Z : z -> int -> z list -> z -> z -> z list
 val run_preds : bool list -> bool list
 
 val run_det_Z : int -> z list -> z
+
+val run_view : bool -> int list -> ((z * z) * z) list -> int list * int list
+
+val run_admissible : bool -> int -> ((z * z) * z) -> bool
